@@ -21,6 +21,22 @@ OPS = [
 ]
 
 
+OPS2 = [
+    (r" \+ (?!=)", " - "), (r" - (?!=)", " + "), (r" \* (?!=)", " / "), (r" / (?!=|/)", " * "),
+    (r" & (?!mut|self|=)", " | "), (r" \| (?!=)", " & "), (r"<<", ">>"), (r">>(?!=)", "<<"),
+    (r"wrapping_sub", "wrapping_add"), (r"wrapping_add", "wrapping_sub"), (r"saturating_sub", "wrapping_sub"),
+    (r"\bbreak\b", "continue"), (r"\bcontinue\b", "break"),
+    (r"\b(\d+)\b(?!\.|_|\w)", lambda m: str(int(m.group(1)) + 1)), (r"\b([1-9]\d*)\b(?!\.|_|\w)", lambda m: str(int(m.group(1)) - 1)),
+    (r"!(?=[a-z(])(?!=)", ""), (r"\bif (?=[a-z])(?!let)", "if !"),
+    (r"\.is_some\(\)", ".is_none()"), (r"\.is_none\(\)", ".is_some()"), (r"\.is_empty\(\)", ".len() == 1"),
+    (r"\bas u32\b", "as u16 as u32"), (r"\bas usize\b", "as u8 as usize"),
+    (r"\.push_back\(", ".push_front("), (r"\.pop_front\(", ".pop_back("), (r"\.front\(\)", ".back()"),
+    (r"\bu32::MAX\b", "u16::MAX as u32"), (r"\bSome\(([a-z_\.]+)\)(?= *[;,)]| *$)", "None"),
+]
+if os.environ.get("MUT_OPS2"):
+    OPS = OPS2
+
+
 def mutants_of(path, text):
     lines = text.split("\n")
     cut = len(lines)
@@ -44,10 +60,10 @@ def mutants_of(path, text):
             for m in re.finditer(rx, l):
                 if "//" in l[:m.start()]:
                     continue
-                nl = l[:m.start()] + rep + l[m.end():]
-                out.append((i, "%s -> %s" % (m.group(0), rep), nl))
+                nl = l[:m.start()] + (rep(m) if callable(rep) else rep) + l[m.end():]
+                out.append((i, "%s -> %s" % (m.group(0), rep(m) if callable(rep) else rep), nl))
         # statement deletion
-        if st.endswith(";") and not st.startswith("let ") and not st.startswith("return") and not st.startswith("pub ") and not st.startswith("const ") and not st.startswith("static ") and "=>" not in st and not st.startswith("}"):
+        if not os.environ.get("MUT_OPS2") and st.endswith(";") and not st.startswith("let ") and not st.startswith("return") and not st.startswith("pub ") and not st.startswith("const ") and not st.startswith("static ") and "=>" not in st and not st.startswith("}"):
             if re.match(r"(self\.|[a-z_]+\.|\*?[a-z_\.]+ (\+|-|\||&|\^)?= )", st):
                 out.append((i, "delete statement", re.match(r"\s*", l).group(0) + ";"))
     return [(path, i, what, nl) for i, what, nl in out]
@@ -94,6 +110,8 @@ def worker(wid, jobs, out):
             except subprocess.TimeoutExpired:
                 rec["status"] = "timeout (hang)"
             out.append(rec)
+            with open(os.environ.get("MUT_PARTIAL", "/dev/null"), "a") as pf:
+                pf.write(json.dumps(rec) + "\n")
             open(fp, "w").write(orig)
     finally:
         shutil.rmtree(tmp, ignore_errors=True)
